@@ -42,8 +42,42 @@ def api(ctx, scenarios):
     return found
 
 
-def oracle(ctx, res):
+def api_model(ctx, res):
+    """The history queries of the real API layer on the node's final database against Model/Api.v evaluated on the MODEL's
+    final state (Corr/Api.v): same count, same actions batch by batch in history_id order over all pages, same status."""
     found = False
+    cov = ctx.coverage.setdefault("correspondence", {}).setdefault("api history queries vs Model/Api.v on the model's state", {"chains": 0, "cases": 0, "chains_where_the_model_did_not_finish": 0, "per_chain": []})
+    for r in res:
+        a = r.get("api")
+        if "error" in r or not a:
+            continue
+        cov["chains"] += 1
+        cov["cases"] += a.get("cases", 0)
+        cov["per_chain"].append({"scenario": r["scenario"], "seed": r["seed"], "cases": a.get("cases", 0),
+                                 "node_side": r.get("stats", {}).get("api_history_queries"),
+                                 "history_tables_well_formed": a.get("history_tables_well_formed")})
+        ctx.coverage["evaluations"] = ctx.coverage.get("evaluations", 0) + a.get("cases", 0)
+        if not a.get("model_ran"):
+            cov["chains_where_the_model_did_not_finish"] += 1
+            continue
+        if a.get("unparsed"):
+            ctx.add_violation("the API/model comparison of scenario %s seed %d could not be read back (%s)" % (r["scenario"], r["seed"], a["unparsed"]),
+                              {"kind": "api-model", "scenario": r["scenario"], "seed": r["seed"]}, name="api-model-broken", found_input=False)
+            found = True
+            continue
+        if a["disagreeing_queries"] or a["disagreeing_status"]:
+            ctx.add_violation("history queries: the node's answers differ from the verified query model on the model's own state (scenario %s seed %d): "
+                              "%d of the get-transactions walks (first: %s) and %d of the status look-ups disagree"
+                              % (r["scenario"], r["seed"], len(a["disagreeing_queries"]), str(a.get("first_disagreeing_case"))[:600], len(a["disagreeing_status"])),
+                              {"kind": "api-model", "scenario": r["scenario"], "seed": r["seed"], "api": a,
+                               "replay_cmd": "harness: chainrun -scenario %s -seed %d ; coqc the file with Corr.Api.api_check" % (r["scenario"], r["seed"])},
+                              name="api-model")
+            found = True
+    return found
+
+
+def oracle(ctx, res):
+    found = api_model(ctx, res)
     for r in res:
         if "error" not in r and not r.get("cr_history_replays", True):
             ctx.add_violation("replaying the history the node recorded does not reproduce its balances (scenario %s seed %d)" % (r["scenario"], r["seed"]),
